@@ -10,7 +10,7 @@
 //	                         ext | eq | eqset | diff-tokens | diff-errors
 //	                  d = t: tpl/scanner against the XGo scanner (C32), token kinds mapped by String():
 //	                         unshared | eq | eqtok | diff, followed by the finding-set dimensions the
-//	                         source belongs to (dim-unit dim-sharp dim-blockcr)
+//	                         source belongs to (dim-sharp dim-blockcr)
 //	h_scan unicode  stdout: "L lo hi" / "D lo hi" maximal ranges of unicode.IsLetter / unicode.IsDigit above 0x7f
 //	h_scan tokens   stdout: one line per (package, value): String, Len, Precedence, IsOperator, IsLiteral, IsKeyword, Lookup
 package main
@@ -444,13 +444,6 @@ func verdictTpl(src []byte, comments bool, tt []tokT, te []int, ts string) strin
 		}
 	}
 	// the dimensions on which the two scanners are known to differ (explored by the fixed finding set)
-	for _, t := range xt {
-		e := t.pos + len(t.lit)
-		if t.tok == int(token.UNIT) && e < len(src) && (src[e] == ' ' || src[e] == '\t' || src[e] == '\r') {
-			v += " dim-unit"
-			break
-		}
-	}
 	if bytes.IndexByte(src, '#') >= 0 && (bytes.IndexByte(src, '\r') >= 0 || bytes.Contains(src, []byte("#*"))) {
 		v += " dim-sharp"
 	}
